@@ -1180,7 +1180,8 @@ func (e *endpoint) Stage(paths []string, digests [][]byte) ([]string, []*rsync.S
 
 	// Verify that the number of paths provided isn't going to put us over the
 	// maximum number of allowed entries.
-	if e.maximumEntryCount != 0 && (e.maximumEntryCount-e.lastScanEntryCount) < uint64(len(paths)) {
+	if e.maximumEntryCount != 0 && (e.lastScanEntryCount > e.maximumEntryCount ||
+		(e.maximumEntryCount-e.lastScanEntryCount) < uint64(len(paths))) {
 		e.unlockScanLock()
 		return nil, nil, nil, errors.New("staging would exceeded allowed entry count")
 	}
